@@ -323,6 +323,43 @@ func structuralMutants(rng *rand.Rand, s []byte, checkSize int, contentLen int) 
 		reseal(t, b.hdr, b.hdr+b.hdrLen-4)
 		return t
 	})
+	// a size field of exactly 2^63 (and 2^63±1, 2^64-1): the block header is rebuilt with the field present, the
+	// index record of the block is adjusted to the new header length, index CRC and backward size recomputed — only
+	// the declared size is wrong
+	recs0 := indexRecords(s, l)
+	if bi < len(recs0) {
+		for _, which := range []byte{0x40, 0x80} {
+			for _, val := range []uint64{1 << 63, 1<<63 - 1, 1<<63 + 1, 1<<64 - 1} {
+				which, val := which, val
+				add(fmt.Sprintf("block-size-field-huge-%#x", which), true, func(t []byte) []byte {
+					tmp := make([]byte, 10)
+					nh := []byte{0, which}
+					nh = append(nh, tmp[:binary.PutUvarint(tmp, val)]...)
+					nh = append(nh, t[fo:fo+3]...) // filter id, props size, dict code
+					for (len(nh)+4)%4 != 0 {
+						nh = append(nh, 0)
+					}
+					nh[0] = byte((len(nh)+4)/4 - 1)
+					crc := make([]byte, 4)
+					binary.LittleEndian.PutUint32(crc, crc32.ChecksumIEEE(nh))
+					nh = append(nh, crc...)
+					delta := len(nh) - b.hdrLen
+					rs := append([][2]uint64{}, recs0...)
+					rs[bi][0] = uint64(int64(rs[bi][0]) + int64(delta))
+					idx := marshalIndex(rs)
+					u := append([]byte{}, t[:b.hdr]...)
+					u = append(u, nh...)
+					u = append(u, t[b.hdr+b.hdrLen:l.index]...)
+					u = append(u, idx...)
+					foot := append([]byte{}, t[l.footer:]...)
+					binary.LittleEndian.PutUint32(foot[4:], uint32(len(idx)/4-1))
+					u = append(u, foot...)
+					reseal2(u, len(u)-12)
+					return u
+				})
+			}
+		}
+	}
 	// structurally valid index (count, records, padding, CRC32, backward size all consistent with each other)
 	// that does not describe the blocks: a record dropped, a record duplicated, two records swapped
 	recs := indexRecords(s, l)
